@@ -182,6 +182,26 @@ theorem never_early_round {α : Type} (K : Kern α) (z : α) (owed : Nat → Nat
       linarith
   exact ⟨hq, Nat.le_floor hq⟩
 
+/-- **Never early even with respect to the final total, any phase response.**  Without assuming the filters centred: the dft shape
+    clauses, `0 ≤ b + margin` stage by stage (`PlanEarlyGen`) and the post-context clause — all decidable, evaluated by the driver on
+    every exported plan, and met by every plan of the real planner sampled, minimum- and maximum-phase ones included. -/
+theorem never_early_round_any_phase {α : Type} (K : Kern α) (z : α) (owed : Nat → Nat) (lp : List LStage)
+    (hwf : ∀ x ∈ lp, StageWF x.cfg x.s0) (he : PlanEarlyGen lp)
+    (hpost : rateOf (lp.map tstage) / 2 ≤ 1 + offsetOf (lp.map tstage) + margOf lp) (hpos : 0 < rateOf (lp.map tstage))
+    (ops : List (DOp α)) (F D : List α) (e : DEng α)
+    (r : DRuns K z owed (DEng.fresh z (lp.map LStage.toPlan)) ops F D e) (hfl : e.fl = false) :
+    D.length ≤ ⌊(F.length : ℚ) / rateOf (lp.map tstage) + 1 / 2⌋₊ := by
+  have hq : (D.length : ℚ) ≤ (F.length : ℚ) / rateOf (lp.map tstage) + 1 / 2 := by
+    rcases Nat.eq_zero_or_pos D.length with h0 | h1
+    · rw [h0]
+      have : (0 : ℚ) ≤ (F.length : ℚ) / rateOf (lp.map tstage) := by positivity
+      simp only [Nat.cast_zero]; linarith
+    · have h := never_early_run_gen K z owed lp hwf he ops F D e r hfl h1
+      have : (D.length : ℚ) - 1 / 2 ≤ (F.length : ℚ) / rateOf (lp.map tstage) := by
+        rw [le_div_iff₀ hpos]; nlinarith
+      linarith
+  exact Nat.le_floor hq
+
 /-- the engine `_soxr_init` leaves behind for a plan, in the count model -/
 def freshEng (lp : List LStage) : Eng := (DEng.fresh () (lp.map LStage.toPlan)).toEng
 
@@ -212,6 +232,36 @@ theorem never_early_round_counts (lp : List LStage) (hwf : ∀ x ∈ lp, StageWF
   have := (never_early_round K () (fun _ => 0) lp hwf he hlat hpost hpos (liftOps () ops) F' D' d' hrun hfl).2
   rw [hF, hD] at this
   exact this
+
+/-- … and for any phase response -/
+theorem never_early_round_counts_gen (lp : List LStage) (hwf : ∀ x ∈ lp, StageWF x.cfg x.s0) (he : PlanEarlyGen lp)
+    (hpost : rateOf (lp.map tstage) / 2 ≤ 1 + offsetOf (lp.map tstage) + margOf lp) (hpos : 0 < rateOf (lp.map tstage)) (hne : lp ≠ [])
+    (ops : List StreamOp) (N D : Nat) (e' : Eng) (hs : Streams (freshEng lp) ops N D e') :
+    D ≤ ⌊(N : ℚ) / rateOf (lp.map tstage) + 1 / 2⌋₊ := by
+  have hf := freshEng_fresh lp hwf hne
+  let K : Kern Unit := { eval := fun _ _ _ _ _ => () }
+  obtain ⟨F', D', d', hrun, hF, hD, hd'⟩ := streams_lift K () (fun _ => 0) ops _ N D e' (DEng.fresh () (lp.map LStage.toPlan)) rfl hf.str hs
+  have hfl : d'.fl = false := by
+    have := (streams_counters ops _ N D e' hf.str hs).1.fl
+    rw [← hd'] at this; exact this
+  have := never_early_round_any_phase K () (fun _ => 0) lp hwf he hpost hpos (liftOps () ops) F' D' d' hrun hfl
+  rw [hF, hD] at this
+  exact this
+
+/-- **Total is exact for every history, any phase response.** -/
+theorem total_exact_any_phase (num : Num) (lp : List LStage) (hwf : ∀ x ∈ lp, StageWF x.cfg x.s0) (he : PlanEarlyGen lp)
+    (hpost : rateOf (lp.map tstage) / 2 ≤ 1 + offsetOf (lp.map tstage) + margOf lp)
+    (hpos : 0 < rateOf (lp.map tstage)) (hne : lp ≠ [])
+    (howed : ∀ n : Nat, ⌊(n : ℚ) / rateOf (lp.map tstage) + 1 / 2⌋₊ ≤ num.owed n)
+    (a : Api) (ha : a.eng = freshEng lp) (e' : Eng) (ops : List StreamOp) (N D : Nat) (reqs : List Nat)
+    (hs : Streams a.eng ops N D e') :
+    let a1 : Api := { a with eng := e'.flush num.owed, flushing := true }
+    ∀ ods a2, Calls num a1 reqs ods a2 → D + ods.sum = min (num.owed N) (D + reqs.sum) := by
+  have hf : Fresh a.eng := by rw [ha]; exact freshEng_fresh lp hwf hne
+  have hearly : D ≤ num.owed N := by
+    rw [ha] at hs
+    exact le_trans (never_early_round_counts_gen lp hwf he hpost hpos hne ops N D e' hs) (howed N)
+  exact total_exact num a e' ops N D reqs hf hs hearly
 
 /-- the ceil bound, likewise for every history of the count model -/
 theorem never_early_counts (lp : List LStage) (hwf : ∀ x ∈ lp, StageWF x.cfg x.s0) (he : PlanEarlyOK lp) (hlat : PlanLatOK false lp)
